@@ -87,7 +87,17 @@ fn spanish_converter() -> Option<Converter> {
 /// bundled units + a layer that adds units lying on the scale of an existing unit (same ratio, other offset)
 fn extra_units_converter() -> Option<Converter> {
     let layer: cooklang::convert::UnitsFile = toml::from_str(
-        "[[quantity]]\nquantity = \"temperature\"\n[quantity.units]\nmetric = [ { names = [\"kelvin\"], symbols = [\"K\"], ratio = 1, difference = 0 } ]\nimperial = [ { names = [\"rankine\"], symbols = [\"R\"], ratio = 0.55555555556, difference = 0 } ]\n",
+        // (and corrects the rounded ratio of fahrenheit without repeating its offset)
+        "[extend.units]\nF = { ratio = 0.5555555555555556 }\n[[quantity]]\nquantity = \"temperature\"\n[quantity.units]\nmetric = [ { names = [\"kelvin\"], symbols = [\"K\"], ratio = 1, difference = 0 } ]\nimperial = [ { names = [\"rankine\"], symbols = [\"R\"], ratio = 0.55555555556, difference = 0 } ]\n",
+    )
+    .ok()?;
+    cooklang::convert::ConverterBuilder::new().with_units_file(cooklang::convert::UnitsFile::bundled()).ok()?.with_units_file(layer).ok()?.finish().ok()
+}
+
+/// bundled units + a layer that makes imperial the default system and adds units that belong to no system
+fn imperial_default_converter() -> Option<Converter> {
+    let layer: cooklang::convert::UnitsFile = toml::from_str(
+        "default_system = \"imperial\"\n[[quantity]]\nquantity = \"mass\"\n[quantity.units]\nunspecified = [ { names = [\"stick\"], symbols = [\"stk\"], ratio = 113.4 } ]\n[[quantity]]\nquantity = \"volume\"\n[quantity.units]\nunspecified = [ { names = [\"glass\"], symbols = [\"gls\"], ratio = 0.2 } ]\n",
     )
     .ok()?;
     cooklang::convert::ConverterBuilder::new().with_units_file(cooklang::convert::UnitsFile::bundled()).ok()?.with_units_file(layer).ok()?.finish().ok()
@@ -648,6 +658,27 @@ pub fn run(tier: Tier) {
     } else {
         c.note("the layer with kelvin and rankine could not be built; that part was skipped");
     }
+    // quantity operations on a converter whose default system is imperial and which has units of no system
+    if let Some(x) = imperial_default_converter() {
+        let e2 = Arc::new(build_env_with(x));
+        let (nu2, nv2) = (e2.units.len(), e2.values.len());
+        let e3 = e2.clone();
+        sweep("C09 quantity operations on the layered converter (imperial default, units without a system)", (nu2 * nv2) as u64, move |idx| json!({"kind": "quantity (imperial default layer)", "unit": e3.units[idx as usize / nv2].symbol(), "value": e3.values[idx as usize % nv2]}), |idx, local| {
+            let (i, k) = (idx as usize / nv2, idx as usize % nv2);
+            let mut out = Vec::new();
+            check_quantity_ops(&e2, i, &Value::Number(Number::Regular(e2.values[k])), &mut out, local);
+            for v in &mut out {
+                v.case["kind"] = json!("quantity (imperial default layer)");
+            }
+            local.nontrivial += 4;
+            out
+        });
+        if c.has_violations() {
+            return;
+        }
+    } else {
+        c.note("the layer with an imperial default system could not be built; that part was skipped");
+    }
     // the same keys on two converters that disagree about them, alternately
     if let Some(b) = reratio_converter() {
         let a = Converter::bundled();
@@ -697,6 +728,16 @@ pub fn replay(case: &J) -> Vec<Violation> {
                     check_pair(&env, i, j, num(&case["value"]), &mut out, &mut local);
                 } else if env.conv.convert(ConvertValue::Number(1.0), ConvertUnit::Unit(&env.units[i]), ConvertTo::Unit(ConvertUnit::Unit(&env.units[j]))).is_ok() {
                     out.push(Violation::new("cross-quantity conversion succeeded", "", case.clone()));
+                }
+            }
+        }
+        "quantity (imperial default layer)" => {
+            if let (Some(x), Ok(val)) = (imperial_default_converter(), serde_json::from_value::<Value>(case["value_json"].clone())) {
+                let e2 = build_env_with(x);
+                if let Some(i) = e2.units.iter().position(|u| Some(u.symbol()) == case["unit"].as_str()) {
+                    check_quantity_ops(&e2, i, &val, &mut out, &mut local);
+                    let op = case["op"].as_str().unwrap_or("");
+                    out.retain(|v| v.case["op"] == op);
                 }
             }
         }
